@@ -20,7 +20,8 @@ def short(t):
 
 
 def match(t, spec):
-    """structural pattern: None | ('const', v) | ('ref', name) | ('this', member) | ('field', member, base) | ('call', fn|{fns}|'~short', obj, [args])"""
+    """structural pattern: None | ('const', v) | ('ref', name) | ('this', member) | ('field', member, base) | ('call', name|{names}, obj, [args]) where a name is a
+    qualified function name or '~' + its last component"""
     if spec is None:
         return True
     if spec[0] == "const":
@@ -36,10 +37,10 @@ def match(t, spec):
     if k == "field":
         return t.get("k") == "mem" and t.get("m") == spec[1] and match(t.get("b"), spec[2])
     if k == "call":
-        f = spec[1]
         if t.get("k") not in ("call", "ctor"):
             return False
-        if f is not None and not ((short(t) == f[1:]) if isinstance(f, str) and f.startswith("~") else (t.get("f") in ({f} if isinstance(f, str) else f))):
+        names = None if spec[1] is None else {spec[1]} if isinstance(spec[1], str) else spec[1]
+        if names is not None and not any(short(t) == n[1:] if n.startswith("~") else t.get("f") == n for n in names):
             return False
         if spec[2] is not None and ("o" not in t or not match(t["o"], spec[2])):
             return False
@@ -107,13 +108,13 @@ def pointwise(ck, rid, fn, value, why):
     tests = [t for t in find(ck, fn, ("call", "~operator*", None, []), "iterator dereferences", 2) if on_local(t) != D]
     ck.need(len(tests) == 1 and on_local(tests[0]), "C50: %s has no second iterator that is read" % fn.name)
     S = on_local(tests[0])
-    bound = find(ck, fn, ("call", {"__gnu_cxx::operator!=", "__gnu_cxx::operator=="}, None, None), "iterator comparison")[0]
+    bound = find(ck, fn, ("call", {"~operator!=", "~operator=="}, None, [None, None]), "iterator comparison")[0]
     ends = [a for a in bound["a"] if not match(a, ("ref", S))]
     ck.need(len(ends) == 1 and len(bound["a"]) == 2, "C50: the loop bound of %s does not compare %s with one end" % (fn.name, S))
     own, theirs = ("this", CHARS), ("field", CHARS, ("ref", src))
-    for what, t, good, bad in (("source cursor starts at %s.chars_.begin()" % src, T.init.get(S), ("call", "std::vector::begin", theirs, []), ("call", None, None, None)),
-                               ("destination cursor starts at chars_.begin()", T.init.get(D), ("call", "std::vector::begin", own, []), None),
-                               ("loop bound is %s.chars_.end()" % src, T.init.get(ends[0].get("d")) if E.strip(ends[0]).get("k") == "ref" else ends[0], ("call", "std::vector::end", theirs, []), None)):
+    for what, t, good in (("source cursor starts at %s.chars_.begin()" % src, T.init.get(S), ("call", "std::vector::begin", theirs, [])),
+                          ("destination cursor starts at chars_.begin()", T.init.get(D), ("call", "std::vector::begin", own, [])),
+                          ("loop bound is %s.chars_.end()" % src, T.init.get(ends[0].get("d")) if E.strip(ends[0]).get("k") == "ref" else ends[0], ("call", "std::vector::end", theirs, []))):
         known = lambda x: E.strip(x or {}).get("f") in ("std::vector::begin", "std::vector::end") and any(n.get("m") == CHARS for n in E.walk(x))
         while E.strip(t or {}).get("k") == "ctor" and len(E.strip(t)["a"]) == 1 and "iterator" in E.strip(t).get("f", ""):
             t = E.strip(t)["a"][0]          # iterator -> const_iterator conversion
